@@ -45,7 +45,12 @@ def looks_list(s):
 
 
 def qcontent_ok(tok, s):
-    return tok.cls == "qstr" and RD.unquote(tok.text) == s
+    """a quoted token says s: its content equals s either verbatim (the dictionary keeps escape sequences as written: 'it\\'s' is stored
+    with its backslash and written back with it) or after un-escaping the wrapping quote (a quote the printer had to escape)"""
+    if tok.cls != "qstr":
+        return False
+    raw = tok.text[:-1] if tok.text.endswith("i") and len(tok.text) > 2 and tok.text[-2] == tok.text[0] else tok.text
+    return RD.unquote(tok.text) == s or raw[1:-1] == s
 
 
 def match_string(slot, key, s, toks):
